@@ -251,8 +251,11 @@ class Gen:
         out: List[str] = []
         pool = [('param', 'a'), ('param', 'b'), ('param', 'args'), ('param', 'kw'), ('type', 'a'), ('return', None), ('rtype', None), ('raise', 'ValueError'),
                 ('raise', 'KeyError'), ('note', None), ('see', None), ('author', None), ('since', None), ('keyword', 'extra'), ('custom', 'z'), ('warns', 'UserWarning'),
-                ('yield', None), ('ytype', None)]
-        chosen = [p for p in pool if r.random() < .3]
+                ('yield', None), ('ytype', None),
+                # fields that may be given several times, and field names docutils knows as bibliographic fields (no special meaning here)
+                ('since', None), ('author', None), ('note', None), ('see', None), ('version', None), ('date', None), ('copyright', None), ('organization', None),
+                ('status', None), ('contact', None)]
+        chosen = [p for p in pool if r.random() < (.3 if p[0] not in UNKNOWN_TAGS or p[0] == 'custom' else .08)]
         if not chosen:
             return out
         if r.random() < .5:
@@ -288,7 +291,7 @@ class Gen:
             # are indented relative to the tag
             self.emit_body(head, 4, paras, out)
             label = {'param': 'Parameters', 'keyword': 'Parameters', 'type': 'Parameters', 'return': 'Returns', 'rtype': 'Returns', 'raise': 'Raises', 'warns': 'Warns', 'yield': 'Yields', 'ytype': 'Yields',
-                     'note': 'Note', 'see': 'See Also', 'author': 'Author', 'since': 'Present Since', 'custom': 'Unknown Field: custom'}[tag]
+                     'note': 'Note', 'see': 'See Also', 'author': 'Author', 'since': 'Present Since', **{t: f'Unknown Field: {t}' for t in UNKNOWN_TAGS}}[tag]
             k = key
             if tag == 'param' and key == 'args':
                 k = '*args'
@@ -297,8 +300,8 @@ class Gen:
             if tag in ('rtype', 'ytype'):
                 k = None
             self.exp.fields.append((label, k, toks))
-            if tag == 'custom':
-                self.exp.warned.append('custom')
+            if tag in UNKNOWN_TAGS:
+                self.exp.warned.append(tag)
         return out
 
     def fields_google(self) -> List[str]:
@@ -386,6 +389,10 @@ class Gen:
         self.exp.body = body_sink
         if self.fmt in ('epytext', 'restructuredtext'):
             f = self.fields_epy_rst()
+            if f and self.r.random() < .12 and not getattr(self.exp, 'verbatim', None):
+                # a docstring that consists of its fields only
+                lines, self.exp.body = [], []
+                return '\n'.join(f) + '\n', self.exp
         elif self.fmt == 'google':
             f = self.fields_google()
         else:
@@ -394,6 +401,9 @@ class Gen:
             lines += [''] + f
         self.exp.body = self.exp.body + list(getattr(self.exp, 'body_tail', []))
         return '\n'.join(lines) + '\n', self.exp
+
+
+UNKNOWN_TAGS = ('custom', 'version', 'date', 'copyright', 'organization', 'status', 'contact')
 
 
 def generate(r: Any, fmt: str) -> Tuple[str, Expect]:
